@@ -68,7 +68,7 @@ PURE_CHECKER = {"pure:pcsaft": ("saft_okb", "saft_ok", "saft_okb_sound"),
                 "pure:epcsaft": ("saft_okb", "saft_ok", "saft_okb_sound"),
                 "pure:saftvrmie": ("mie_okb", "mie_ok", "mie_okb_sound"),
                 "pure:saftvrqmie": ("vrq_okb", "vrq_ok", "vrq_okb_sound"),
-                "pure:dippr": ("ideal_okb", "ideal_ok", "ideal_okb_sound")}
+                "pure:dippr": ("(dippr_okb grid)", "(dippr_ok grid)", "(dippr_okb_sound grid)")}
 ID_KINDS = ["cas", "name", "iupac_name", "smiles", "inchi", "formula"]
 COQ_KIND = {"cas": "Kcas", "name": "Kname", "iupac_name": "Kiupac", "smiles": "Ksmiles", "inchi": "Kinchi", "formula": "Kformula"}
 # Identifier kinds that must be duplicate free in every pure / chemical file (look-up may use any IdentifierOption).
@@ -272,7 +272,15 @@ def crecord(kind, r):
 
 
 COQ_TYPE = {"pure": "pure_rec", "segment": "seg_rec", "binary": "bin_rec", "binaryseg": "binseg_rec", "chemical": "chem_rec"}
-HEAD = ("From Coq Require Import List String ZArith QArith.\nFrom FeosVerif Require Import RecordsC15.\n"
+# ideal-gas models: temperature grid (K) on which the heat capacity must be positive and the exact model is compared with
+# IdealGas::ln_lambda3; constants of src/ideal_gas/{dippr,joback}.rs as exact rationals
+IG_GRID = [200, 300, 450, 700, 1000]
+IG_GRID_COQ = "[" + "; ".join("(%d # 1)%%Q" % t for t in IG_GRID) + "]"
+DIPPR_R = "(831446261815324 # 100000000000)%Q"      # 8.31446261815324 * 1000
+IG_T0 = "(29815 # 100)%Q"                           # 298.15
+JOBACK_R = "((6022140857 # 1000000000) * (138064852 # 100000000))%Q"   # 6.022140857 * 1.38064852
+QP = "(fun x : Q => (Qnum x, Zpos (Qden x)))"   # unreduced: Z.gcd on 400-digit numbers is slow in the VM; python reduces
+HEAD = ("From Coq Require Import List String ZArith QArith.\nFrom FeosVerif Require Import RecordsC15 IdealGasC15.\n"
         "Import ListNotations.\nOpen Scope string_scope.\nOpen Scope Z_scope.\n")
 
 
@@ -394,6 +402,11 @@ def generate(params_dir, outdir, seg_exceptions=None, kind_exceptions=None):
             okb, ok, sound = PURE_CHECKER[kind]
             mod = "P_" + modname(rel)
             t = HEAD + req([D(rel)]) + "Definition data := %s.data.\n" % D(rel)
+            if kind == "pure:dippr":
+                t += "Definition grid : list Q := %s.\n" % IG_GRID_COQ
+                t += ('Eval vm_compute in ("IG", %s, map (fun r => let cs := dippr_coefs r in (p_name r, %s (ig_log %s cs), '
+                      'map (fun t => (%s (ig_rat %s %s cs t), %s (cp cs t))) grid)) data).\n'
+                      % (cstr(rel), QP, DIPPR_R, QP, DIPPR_R, IG_T0, QP))
             t += 'Eval vm_compute in ("COUNT", %s, List.length data).\n' % cstr(rel)
             t += 'Eval vm_compute in ("BADREC", %s, map (fun r => (p_name r, p_mw r, field "m" (p_fields r), field "sigma" (p_fields r), field "epsilon_k" (p_fields r))) (filter (fun r => negb (%s r)) data)).\n' % (cstr(rel), okb)
             t += 'Eval vm_compute in ("DUPNAMES", %s, let ns := names data in filter (fun n => Nat.ltb 1 (List.length (filter (String.eqb n) ns))) ns).\n' % cstr(rel)
@@ -530,6 +543,19 @@ def generate(params_dir, outdir, seg_exceptions=None, kind_exceptions=None):
             write(os.path.join(outdir, mod + ".v"), t)
             phase2.append(mod)
             checks[mod] = {"what": "gc assembly (structural)", "file": table, "obligations": 2}
+    if GC_SUBSTANCES in listing and JOBACK_TABLE in listing:
+        mod = "J_" + modname(JOBACK_TABLE)
+        t = HEAD + req([D(GC_SUBSTANCES), D(JOBACK_TABLE)]) + "Definition chems := %s.data.\nDefinition table := %s.data.\n" % (D(GC_SUBSTANCES), D(JOBACK_TABLE))
+        t += "Definition grid : list Q := %s.\n" % IG_GRID_COQ
+        t += ('Eval vm_compute in ("IGJ", %s, map (fun c => (c_name c, match joback_coefs table c with\n'
+              '  | Some cs => Some (map %s cs, %s (ig_log %s cs), map (fun t => (%s (ig_rat %s %s cs t), %s (cp cs t))) grid)\n'
+              '  | None => None end)) chems).\n' % (cstr(JOBACK_TABLE), QP, QP, JOBACK_R, QP, JOBACK_R, IG_T0, QP))
+        t += 'Eval vm_compute in ("BADREC", %s, map c_name (filter (fun c => negb (joback_gc_okb grid table c)) chems)).\n' % cstr(JOBACK_TABLE)
+        t += "Lemma check : forallb (joback_gc_okb grid table) chems = true.\nProof. vm_compute. reflexivity. Qed.\n"
+        t += "Theorem shipped_ok : Forall (joback_gc_ok grid table) chems.\nProof. exact (joback_gc_all_sound _ _ _ check). Qed.\n"
+        write(os.path.join(outdir, mod + ".v"), t)
+        phase2.append(mod)
+        checks[mod] = {"what": "ideal-gas assembly (Joback)", "file": JOBACK_TABLE, "obligations": 2}
     if SMARTS in listing:
         tabs = [tb for tb in SMARTS_TABLES if tb in listing]
         mod = "C_" + modname(SMARTS)
